@@ -377,6 +377,42 @@ def float_clock_stage(ctx, tu, rnd):
             for p in problems:
                 ctx.violation({'kind': 'float-readings', 'what': p.split(' ')[0]}, {'start': start, 'now': box[0], 'duration': dur, 'maximum': m},
                               'StopWatch with clock readings %r -> %r: %s' % (start, box[0], p))
+        # a clock that moves on with every reading (as a real one does while a call is running): whatever a call
+        # returns is computed from ONE of the readings it took - leftover is max(0, duration - elapsed) for it,
+        # never negative; expired is (elapsed > duration) for it
+        readings = []
+        step = [0.0]
+
+        def ticking():
+            box[0] += step[0]
+            readings.append(box[0])
+            return box[0]
+        tu.now = ticking
+        for j in range(2000 if ctx.quick else 40000):
+            start = rnd.choice([0.0, 0.3, rnd.uniform(0, 100)])
+            dur = rnd.choice([0.5, 1.0, rnd.uniform(0.1, 3)])
+            step[0] = 0.0
+            box[0] = start
+            w = tu.StopWatch(dur)
+            w.start()
+            started = box[0]
+            box[0] = started + rnd.choice([dur - 0.2, dur - 0.05, dur + 0.05, rnd.uniform(0, 2 * dur)])
+            step[0] = rnd.choice([0.1, 0.3, 0.07])
+            for name in ('leftover', 'expired', 'elapsed'):
+                del readings[:]
+                got = getattr(w, name)()
+                es = [max(0.0, r - started) for r in readings]
+                if name == 'leftover':
+                    ok = any(got == max(0.0, dur - e) for e in es) and got >= 0
+                elif name == 'expired':
+                    ok = any(got == (e > dur) for e in es)
+                else:
+                    ok = got in es
+                n += 1
+                if not ok:
+                    ctx.violation({'kind': 'ticking-clock', 'call': name}, {'started': started, 'duration': dur, 'readings': list(readings), 'result': got},
+                                  'StopWatch.%s() under a clock that ticks on every reading returned %r; readings %s, started %r, duration %r' % (
+                                      name, got, readings, started, dur))
     finally:
         tu.now = saved
     ctx.cov['evaluations'] += n
